@@ -36,9 +36,15 @@ _LOADED = {}
 
 def load(jwk, private=None):
     """JWK dict -> oct bytes or cryptography key object (immutable, so cached). private=None: private if 'd' present."""
-    if jwk.get("kty") == "RSA" and isinstance(jwk.get("n"), str):
-        ck = (private, tuple(sorted((k, v) for k, v in jwk.items() if isinstance(v, str))))
+    if jwk.get("kty") in ("RSA", "EC", "OKP"):
+        try:
+            ck = (private, tuple(sorted((k, v) for k, v in jwk.items() if isinstance(v, str))))
+            hash(ck)
+        except TypeError:
+            return _load(jwk, private)
         if ck not in _LOADED:
+            if len(_LOADED) > 20000:
+                _LOADED.clear()
             _LOADED[ck] = _load(jwk, private)
         return _LOADED[ck]
     return _load(jwk, private)
